@@ -2,9 +2,11 @@
 // context / timer constructs rewritten to the cooperative runtime by
 // tools/chanrw).  Options: workers=<n> limit=<expandable limit> autostart=0|1.
 // Ops:  D<task>[,<ctx>[,<gate>]] Do      T... TryDo      E<task>[,<gate>] Execute
-//       Y<task>[,<gate>] TryExecute      X Stop   S Start   C<k> cancel user context k
-//       G<g> open gate g   F<i> fire the i-th armed timer   R<task> wait for the result
-//       r<task> poll the result.
+//
+//	Y<task>[,<gate>] TryExecute      X Stop   S Start   C<k> cancel user context k
+//	G<g> open gate g   F<i> fire the i-th armed timer   R<task> wait for the result
+//	r<task> poll the result.
+//
 // ctx 0 = nil (the pool's context), k >= 1 = user context k.  A gated task's
 // executor waits until its gate is open.  Results: u, b0/b1, v<task>, ec, n.
 package main
@@ -14,12 +16,12 @@ import (
 	"sort"
 	"strings"
 
-	wp "go.linecorp.com/garr/worker-pool"
 	"go.linecorp.com/garr/vshim/vchan"
 	"go.linecorp.com/garr/vshim/vcontext"
 	"go.linecorp.com/garr/vshim/vdrv"
 	"go.linecorp.com/garr/vshim/vsched"
 	"go.linecorp.com/garr/vshim/vtime"
+	wp "go.linecorp.com/garr/worker-pool"
 )
 
 type taskInfo struct {
@@ -223,7 +225,8 @@ func newInst(s *vdrv.Scenario) vdrv.Instance {
 	}
 	in.workers, in.limit = s.OptInt("workers", 1), s.OptInt("limit", 0)
 	// the pool context is a child of a harness-owned root, so that the harness can recognise it
-	root, _ := vcontext.WithCancel(vcontext.Background())
+	root, rootCancel := vcontext.WithCancel(vcontext.Background())
+	in.cancels[0] = rootCancel
 	in.p = wp.NewPool(root, wp.Option{NumberWorker: in.workers, ExpandableLimit: int32(in.limit), DisableAutoStart: s.OptInt("autostart", 1) == 0})
 	in.poolCtx = in.p.VerifCtx()
 	current = in
@@ -402,8 +405,16 @@ func monitor(s *vdrv.Scenario, h *vdrv.History, fin string, aborted string) stri
 				waiting++
 			}
 		}
-		if waiting > 1 {
-			return fmt.Sprintf("%d accepted tasks were waiting (not yet taken by a worker) when %s returned: more than the single queue slot", waiting, c.op)
+		// a task counts as waiting until its executor starts; a worker that is not executing
+		// may already hold one task it has taken out of the queue
+		runningNow := 0
+		for _, ti := range in.tasks {
+			if len(ti.begins) > 0 && ti.begins[0] <= c.ret && (len(ti.ends) == 0 || ti.ends[0] > c.ret) {
+				runningNow++
+			}
+		}
+		if free := in.workers + in.limit - runningNow; waiting > 1+free {
+			return fmt.Sprintf("%d accepted tasks were waiting when %s returned although only %d worker(s) were not executing: more than the single queue slot was buffered", waiting, c.op, free)
 		}
 	}
 	// Stop: drained and no goroutine left
